@@ -3,12 +3,11 @@
    generated query and compares with compile() for random registries.
 
    C05_sound below is the soundness half for every text: whatever compile() accepts is well-typed and in range.
-   The completeness half (NOT proved: it needs the token-level parser theorem of C03/C04):
-     C05_complete : forall cfg toks q, grammatical toks q -> wt_query (reg cfg) q = true -> ints_in_range lo hi q = true ->
-                    exists s, p_parse cfg toks = POk q s
-   is decided by the correspondence on generated well-typed queries.  Parentheses are not represented in the syntax
-   tree the judgement is about: that a parenthesised argument counts as a logical-expr is stated about the parser model
-   only (grouped_ok in Model/Parse.v) and checked against the code on a grid of parenthesised arguments.
+   The completeness half is C05_complete_tokens, at the level of token sequences: every token sequence the typed
+   token-level grammar derives (Proofs/ParseComplete.v: QT, the RFC 9535 ABNF without its lexical layer, with the typing
+   rules of 2.4.3 and the integer range as side conditions - parentheses included, which the syntax tree does not record:
+   a parenthesised argument is a logical-expr) is accepted by Parser.parse, which returns the derived query.  That the
+   lexer turns every grammatical TEXT into such a token sequence is decided by the correspondence (C03).
 
    Also proved below: the compile-time checks of the parser model, as functions on expressions, coincide with the
    judgement's side conditions for every registry. *)
@@ -23,6 +22,49 @@ Theorem C05_sound : forall cfg text q, m_compile cfg text = Ok q ->
   wt_query (reg cfg) q = true /\ ints_in_range (min_idx cfg) (max_idx cfg) q = true.
 Proof. exact compile_typed. Qed.
 Print Assumptions C05_sound.
+
+(* Completeness, on token sequences: for every registry and range, Parser.parse accepts ROOT, the tokens of a
+   well-formed, well-typed, in-range query, EOF - shorthand or bracketed segments, either quote style, parentheses
+   wherever the grammar allows them, any nesting of filters and function calls - and returns that query.
+   Proofs/ParseComplete.v: fuel monotonicity, the prefix property of the Pratt loop, one lemma per production. *)
+From JP Require Import Model.Tokens Proofs.Requery Proofs.ParseComplete.
+Theorem C05_complete_tokens : forall cfg q t v0 i0 v1 i1, QT cfg q t ->
+  exists s, p_parse cfg (tk T_ROOT v0 i0 :: t ++ [tk T_EOF v1 i1]) = POk q s.
+Proof. exact parse_complete. Qed.
+Print Assumptions C05_complete_tokens.
+
+(* ... and what the grammar derives is exactly what the judgement of Spec/Types.v calls valid (with C05_sound's parser-level form) *)
+Theorem C05_grammar_typed : forall cfg q t, QT cfg q t ->
+  wt_query (reg cfg) q = true /\ ints_in_range (min_idx cfg) (max_idx cfg) q = true.
+Proof.
+  intros cfg q t H. destruct (parse_complete cfg q t [] 0 [] 0 H) as [s E]. exact (parse_typed cfg _ q s E).
+Qed.
+Print Assumptions C05_grammar_typed.
+
+(* the grammar is not empty: the tokens of the query  $[?@.a == 1 && !(count(@[*]) > 2)]  (wildcard written in shorthand), with the built-in count *)
+Example C05_complete_nonvacuous :
+  let rg := [([99; 111; 117; 110; 116]%N, {| f_args := [TNodes]; f_ret := TValue; f_impl := FCount |})] in
+  let cfg := {| min_idx := -9007199254740991; max_idx := 9007199254740991; max_depth := 100; reg := rg; rx := fun _ _ _ => false |} in
+  exists q t, QT cfg q t /\ t <> [].
+Proof.
+  intros rg cfg.
+  assert (L1 : lit_tok (JNum (NInt 1)) (tk T_INT [49%N] 0)).
+  { right. right. right. right. left. split; [reflexivity|]. split; [reflexivity|]. eexists. split; reflexivity. }
+  assert (L2 : lit_tok (JNum (NInt 2)) (tk T_INT [50%N] 0)).
+  { right. right. right. right. left. split; [reflexivity|]. split; [reflexivity|]. eexists. split; reflexivity. }
+  pose proof (qt_cons cfg _ _ _ _ (sg_prop cfg [97%N] 0) (qt_nil cfg)) as Qa.
+  pose proof (qt_cons cfg _ _ _ _ (sg_wild cfg [] 0) (qt_nil cfg)) as Qw.
+  pose proof (tt_rel cfg TValue _ _ [] 0 Qa (fun _ => eq_refl)) as Ta.
+  assert (Hw : TNodes = TValue -> singular [Child [SWild]] = true) by discriminate.
+  pose proof (tt_rel cfg TNodes _ _ [] 0 Qw Hw) as Tw.
+  pose proof (tt_call cfg TValue [99; 111; 117; 110; 116]%N _ _ _ 0 [] 0 eq_refl eq_refl (as_one cfg _ _ _ (ar_nodes cfg _ _ Tw))) as Tc.
+  pose proof (et_cmp cfg OEq _ _ _ [] 0 _ (ct_test cfg _ _ Ta) (ct_lit cfg _ _ L1)) as C1.
+  pose proof (et_cmp cfg OGt _ _ _ [] 0 _ (ct_test cfg _ _ Tc) (ct_lit cfg _ _ L2)) as C2.
+  pose proof (et_not_paren cfg _ _ [] 0 [] 0 [] 0 (et_34 cfg _ _ (et_45 cfg _ _ C2))) as N2.
+  pose proof (et_34 cfg _ _ (et_and cfg _ _ _ [] 0 _ C1 (et_45 cfg _ _ (et_57 cfg _ _ N2)))) as A.
+  pose proof (qt_cons cfg _ _ _ _ (sg_br cfg _ _ [] 0 [] 0 (ss_one cfg _ _ (st_filter cfg _ _ [] 0 A))) (qt_nil cfg)) as Q.
+  eexists. eexists. split; [exact Q | discriminate].
+Qed.
 
 Theorem C05_singular_partial : forall q, m_singular q = singular q.
 Proof. intros q. unfold m_singular, singular.
